@@ -24,6 +24,7 @@ Definition path_code (p : path) : Z :=
   match p with
   | PDir k => 1000 + Z.of_nat k
   | PFile o f => owner_code o * 10 + fcode f
+  | PMark => 9000
   end.
 Definition enc_step (s : step) : Z :=
   match s with
@@ -50,7 +51,8 @@ Definition fkinds : list fkind := [FBin; FCbin; FTmp; FCh; FMeta; FChTmp].
 Definition universe (n : nat) : list path :=
   map (PFile Orig) fkinds ++ map (PFile Lf21) fkinds
   ++ flat_map (fun k => PDir k :: map (PFile (Shank k Ap)) fkinds
-                        ++ map (PFile (Shank k Lf)) fkinds) (seq 0 n).
+                        ++ map (PFile (Shank k Lf)) fkinds) (seq 0 n)
+  ++ [PMark].
 
 Definition enc_fstate (v : fstate) : Z :=
   match v with Absent => 0 | Partial => 1 | Complete => 2 end.
@@ -74,14 +76,16 @@ Definition dec_bool (z : Z) : bool := negb (z =? 0).
 Definition dec_sub (n : nat) (z : Z) : option (list nat) :=
   if z <=? 0 then None else Some (filter (fun k => Z.testbit z (Z.of_nat k)) (seq 0 (Nat.max n 8))).
 
-Fixpoint dec_runs (n : nat) (fuel : nat) (l : list Z) : list runspec :=
+(* target 100 = the user removes the original's .meta, 101 = NP2Reconstructor(compress=comp).process() *)
+Fixpoint dec_runs (n : nat) (fuel : nat) (l : list Z) : list hop :=
   match fuel with
   | O => []
   | S f =>
       match l with
       | t :: po :: de :: co :: ow :: cr :: cp :: sb :: rest =>
-          mkRun (dec_target t) (mkO (dec_bool po) (dec_bool de) (dec_bool co)) (dec_bool ow)
-                (dec_opt cr) (dec_opt cp) (dec_sub n sb) :: dec_runs n f rest
+          (if t =? 100 then HDropMeta else if t =? 101 then HRecon (dec_bool co) else
+           HRun (mkRun (dec_target t) (mkO (dec_bool po) (dec_bool de) (dec_bool co)) (dec_bool ow)
+                       (dec_opt cr) (dec_opt cp) (dec_sub n sb))) :: dec_runs n f rest
       | _ => []
       end
   end.
@@ -113,7 +117,7 @@ Definition run (inp : list Z) : list Z :=
       let n' := Z.to_nat n in
       if kd <? 10 then
         flat_map (enc_out n')
-          (run_hist (dec_kind kd) n' (Z.to_nat w) (init_fs (dec_bool c))
+          (ops_run (dec_kind kd) n' (Z.to_nat w) (init_fs (dec_bool c))
                     (dec_runs n' (length rest) (rest)))
       else
         match rest with
